@@ -225,47 +225,48 @@ c.param('self', Ref('BaseClient'))
 c.returns(STR)
 
 DISC_H = ("'disconnect' in self.handlers and handler_accepts(self.handlers['disconnect'], 1)")
-c = REG.contract('client.Client._read_loop_polling', props=['C08', 'C09'])
-c.param('self', Ref('Client'))
-c.requires("self.queue is not None and self.queue.unf >= len(self.queue.items) and "
-           "(self.state == 'connected' or self.state == 'disconnecting' or "
-           "self.state == 'disconnected') and self.read_loop_task is not None and "
-           "implies(self.current_transport == 'websocket', self.ws is not None)", 'client-wf')
-c.requires("isinstance(self.ping_interval, float) and isinstance(self.ping_timeout, float) and "
-           "isinstance(self.base_url, str)", 'timing-adopted-from-open')
-c.ensures('connection-is-over', "self.state != 'connected'", props=['C08'])
-c.ensures('at-most-one-disconnect-event-with-a-true-reason', 'implies(' + DISC_H + ", "
-          "events == old(events) or last_event_is(events, old(events), "
-          "self.handlers['disconnect'], 1, 'transport error', None) or "
-          "last_event_is(events, old(events), self.handlers['disconnect'], 1, "
-          "'server disconnect', None))", props=['C08'])
-# the connection this loop ends itself is reported once, as a transport error, before the reset
-c.check_before('self._reset()', 'transport-error-event-fired-before-reset', 'implies(' + DISC_H +
-               ", last_event_is(events, old(events), self.handlers['disconnect'], 1, "
-               "'transport error', None))", props=['C08'])
-R_MOD = ['self.state', 'self.sid', 'self.queue.items', 'self.queue.unf', 'self.queue.accepted',
-         'self.queue.put_none', 'ghost.events', 'ghost.hresults', 'ghost.spawned', 'ghost.now',
-         'ghost.http_bodies', 'new Payload.packets', 'new Packet.binary', 'new Packet.packet_type',
-         'new Packet.data', 'new Packet.encode_cache']
-c.modifies(*R_MOD)
-c.loop(0, invariants=[
-    ('wf', "(self.state == 'connected' or self.state == 'disconnecting' or "
-     "self.state == 'disconnected') and self.read_loop_task is not None and "
-     "implies(self.state == 'connected', self.queue.unf >= len(self.queue.items))"),
-    ('no-event-while-connected', "implies(self.state == 'connected', events == old(events))"),
-    ('ended-by-close-only', 'implies(' + DISC_H + " and self.state != 'connected', "
-     "events == old(events) or last_event_is(events, old(events), "
-     "self.handlers['disconnect'], 1, 'server disconnect', None))")],
-    modifies=['r', 'p', 'pkt'] + R_MOD)
-c.loop(1, index='j', invariants=[
-    ('wf', "(self.state == 'connected' or self.state == 'disconnecting' or "
-     "self.state == 'disconnected') and self.read_loop_task is not None and "
-     "implies(self.state == 'connected', self.queue.unf >= len(self.queue.items))"),
-    ('no-event-while-connected', "implies(self.state == 'connected', events == old(events))"),
-    ('ended-by-close-only', 'implies(' + DISC_H + " and self.state != 'connected', "
-     "events == old(events) or last_event_is(events, old(events), "
-     "self.handlers['disconnect'], 1, 'server disconnect', None))"),
-    ('decoded-packets', 'forall(lambda k: p.packets[k] is not None and '
-     '0 <= p.packets[k].packet_type and p.packets[k].packet_type <= 9 and '
-     '(p.packets[k].packet_type == 4 or not is_bin(p.packets[k].data)), 0, len(p.packets))')],
-    modifies=['pkt'] + R_MOD)
+for _cls, _mod in (('Client', 'client'), ('AsyncClient', 'async_client')):
+    c = REG.contract('%s.%s._read_loop_polling' % (_mod, _cls), props=['C08', 'C09'])
+    c.param('self', Ref(_cls))
+    c.requires("self.queue is not None and self.queue.unf >= len(self.queue.items) and "
+               "(self.state == 'connected' or self.state == 'disconnecting' or "
+               "self.state == 'disconnected') and self.read_loop_task is not None and "
+               "implies(self.current_transport == 'websocket', self.ws is not None)", 'client-wf')
+    c.requires("isinstance(self.ping_interval, float) and isinstance(self.ping_timeout, float) and "
+               "isinstance(self.base_url, str)", 'timing-adopted-from-open')
+    c.ensures('connection-is-over', "self.state != 'connected'", props=['C08'])
+    c.ensures('at-most-one-disconnect-event-with-a-true-reason', 'implies(' + DISC_H + ", "
+              "events == old(events) or last_event_is(events, old(events), "
+              "self.handlers['disconnect'], 1, 'transport error', None) or "
+              "last_event_is(events, old(events), self.handlers['disconnect'], 1, "
+              "'server disconnect', None))", props=['C08'])
+    # the connection this loop ends itself is reported once, as a transport error, before the reset
+    c.check_before('self._reset()' if _cls == 'Client' else 'await self._reset()', 'transport-error-event-fired-before-reset', 'implies(' + DISC_H +
+                   ", last_event_is(events, old(events), self.handlers['disconnect'], 1, "
+                   "'transport error', None))", props=['C08'])
+    R_MOD = ['self.state', 'self.sid', 'self.queue.items', 'self.queue.unf', 'self.queue.accepted',
+             'self.queue.put_none', 'ghost.events', 'ghost.hresults', 'ghost.spawned', 'ghost.now',
+             'ghost.http_bodies', 'new Payload.packets', 'new Packet.binary', 'new Packet.packet_type',
+             'new Packet.data', 'new Packet.encode_cache']
+    c.modifies(*R_MOD)
+    c.loop(0, invariants=[
+        ('wf', "(self.state == 'connected' or self.state == 'disconnecting' or "
+         "self.state == 'disconnected') and self.read_loop_task is not None and "
+         "implies(self.state == 'connected', self.queue.unf >= len(self.queue.items))"),
+        ('no-event-while-connected', "implies(self.state == 'connected', events == old(events))"),
+        ('ended-by-close-only', 'implies(' + DISC_H + " and self.state != 'connected', "
+         "events == old(events) or last_event_is(events, old(events), "
+         "self.handlers['disconnect'], 1, 'server disconnect', None))")],
+        modifies=['r', 'p', 'pkt'] + R_MOD)
+    c.loop(1, index='j', invariants=[
+        ('wf', "(self.state == 'connected' or self.state == 'disconnecting' or "
+         "self.state == 'disconnected') and self.read_loop_task is not None and "
+         "implies(self.state == 'connected', self.queue.unf >= len(self.queue.items))"),
+        ('no-event-while-connected', "implies(self.state == 'connected', events == old(events))"),
+        ('ended-by-close-only', 'implies(' + DISC_H + " and self.state != 'connected', "
+         "events == old(events) or last_event_is(events, old(events), "
+         "self.handlers['disconnect'], 1, 'server disconnect', None))"),
+        ('decoded-packets', 'forall(lambda k: p.packets[k] is not None and '
+         '0 <= p.packets[k].packet_type and p.packets[k].packet_type <= 9 and '
+         '(p.packets[k].packet_type == 4 or not is_bin(p.packets[k].data)), 0, len(p.packets))')],
+        modifies=['pkt'] + R_MOD)
